@@ -501,6 +501,26 @@ def perturb_representation(model: PyModel, t, v, rng, stats=None, fmt="binary"):
         except (OverflowError, ValueError):
             return v
         return v
+    if isinstance(t, Arr) and isinstance(v, np.ndarray) and v.dtype.names and isinstance(t.inner, M.Named) and not t.inner.args \
+            and (t.inner.ns is None or t.inner.ns == model.pkg.namespace) and rng.fork("documented-dtype").chance(0.5):
+        # an array of records in the dtype that the generated module's get_dtype() documents for the record (how a user builds
+        # such an array), packed as well as aligned, instead of the dtype the reader happened to hand out
+        cls_ = getattr(model.mod, t.inner.name, None)
+        if cls_ is not None and hasattr(model.mod, "get_dtype"):
+            try:
+                dt_ = model.mod.get_dtype(cls_)
+            except Exception:  # noqa  (not a type get_dtype knows: leave the array as it is)
+                dt_ = None
+            if dt_ is not None and dt_.names == v.dtype.names:
+                if rng.fork("packed").chance(0.3):
+                    from numpy.lib import recfunctions as _rf
+                    dt_ = _rf.repack_fields(dt_, align=False, recurse=True)
+                if stats is not None:
+                    k_ = "py_record_array_in_the_dtype_get_dtype_documents" + ("" if dt_ == v.dtype else "(differs from what the reader hands out)")
+                    stats[k_] = stats.get(k_, 0) + 1
+                w_ = np.empty(v.shape, dtype=dt_)
+                w_[...] = v
+                return w_
     if isinstance(t, Arr) and isinstance(v, np.ndarray) and v.size > 0 and v.ndim >= 1 and v.dtype != object:
         how = rng.choice(["fortran", "transposed_view", "strided_view", "reversed_view", "as_is"] if v.ndim >= 2 else ["strided_view", "reversed_view", "as_is"])
         if stats is not None:
